@@ -56,13 +56,38 @@ func urlRoundTrip(c *vk.Ctx) {
 		if err := driver.VerifSetConfig(fname(), u); err != nil {
 			return // a value the URL parser rejects is answered with an error, not saved
 		}
-		// what was saved = the current options overlaid with the URL parameters
-		saved := map[string]string{}
-		applied, _, err := driver.VerifURLOnCurrent(q)
-		if err != nil {
+		// What must have been saved, computed without the URL code: every field at its
+		// default, except the assigned ones; a URL parameter given with an empty value
+		// counts as unset. The canonical spelling of a value is what assigning it as an
+		// option yields.
+		want := map[string]string{}
+		for _, f := range fields {
+			want[f[0]] = f[3]
+		}
+		for _, s := range set {
+			if viaURL && s.f[1] != "" && s.v == "" {
+				continue
+			}
+			driver.VerifReset()
+			if err := driver.VerifConfigure(s.f[0], s.v); err != nil {
+				return
+			}
+			want[s.f[0]], _ = driver.VerifConfigGet(s.f[0])
+		}
+		stored, err := driver.VerifReadSettings(fname())
+		if err != nil || stored["A"] == nil {
+			c.Violationf("url-roundtrip/not-stored", w, "configuration A is not in the settings file: %v", err)
 			return
 		}
-		saved = applied
+		for _, f := range fields {
+			if f[2] != "true" {
+				continue
+			}
+			if got := stored["A"][f[0]]; got != want[f[0]] {
+				c.Violationf("url-to-config/field-wrong/"+f[0], w, "field %s stored as %q, expected %q", f[0], got, want[f[0]])
+			}
+		}
+		saved := stored["A"]
 		var menuURL string
 		for _, e := range driver.VerifConfigMenu(fname()) {
 			if e[0] == "A" {
